@@ -228,6 +228,9 @@ def run(ctx):
     for part in common.pmap(work, tasks):
         acc += part
     ctx.layer('itp-roundtrip', acc)
+    # the ITP a molecule's type name points at, after the real naming/deduplication and topology writer (layer shared with C03)
+    from props import c03
+    c03.run_files_layer(ctx, 2 if ctx.quick else 3, name='itp-of-named-molecules')
     from props import cli_topology
     cli_topology.run_layer(ctx)
 
@@ -237,6 +240,9 @@ def replay(case):
     if case.get('layer') == 'cli-topology':
         from props import cli_topology
         return cli_topology.replay(case)
+    if 'shapes' in case and 'deduplicate' in case:
+        from props import c03
+        return c03.replay(case)
     acc = Acc()
     check(case['keys'], case['atomids'], tuple(case['interactions']), case['charge_mass'], acc)
     return [(s, d) for s, d, _ in acc.violations]
